@@ -395,6 +395,7 @@ def b64(s):
 def run_token(sc):
     from .. import world as W
     from ..harness import detail_outcome
+    W.install()
     import pika
     fails = []
     w = W.World(seed=15, tick=0.0)
